@@ -59,6 +59,7 @@ type World struct {
 	siteHits      []int64
 	traceSites    bool
 	pnet          *pipeNet
+	mainGoid      int64
 
 	// degraded: the instrumented tree starts goroutines of its own. Their
 	// steps are not under scheduler control: hooks are serialised by mu, only
@@ -68,6 +69,52 @@ type World struct {
 	degraded  bool
 	mu        sync.Mutex
 	pipeGoids bool
+
+	// tainted: a handler / task was found blocked (no step for blockWatch while not finished) and
+	// has been abandoned; its goroutine may still exist, so this node finishes the current plan
+	// and is replaced by a fresh one
+	tainted bool
+
+	lockP    float64
+	lockRand *Rand
+}
+
+// blockWatch: how long a request may make no step at all (while not finished) before it is
+// declared blocked. Blocking is not progress-dependent, so the verdict does not depend on timing.
+const blockWatch = 6 * time.Second
+
+// guarded runs fn (one request on the main task) on a helper goroutine and reports whether it
+// blocked: did not finish and made no step for blockWatch.
+func (w *World) guarded(t *Task, fn func()) (blocked bool) {
+	if t != w.mainTask || w.schedOn {
+		fn()
+		return false
+	}
+	done := make(chan struct{})
+	go func() {
+		defer close(done)
+		t.goid = goid()
+		fn()
+	}()
+	last := int64(-1)
+	idle := time.Duration(0)
+	const poll = 250 * time.Millisecond
+	tk := time.NewTicker(poll)
+	defer tk.Stop()
+	for {
+		select {
+		case <-done:
+			t.goid = w.mainGoid
+			return false
+		case <-tk.C:
+			if cur := t.ticks; cur != last {
+				last, idle = cur, 0
+			} else if idle += poll; idle >= blockWatch {
+				w.tainted = true
+				return true
+			}
+		}
+	}
 }
 
 type SiteInfo struct {
@@ -98,6 +145,7 @@ type Task struct {
 	rec       *ReqRecord
 	lastSite  int
 	segTicks  int64
+	blocked   bool
 	mapCtr    map[int]int // per-request counters of map-order decisions (task-local, so a task's orders do not depend on its neighbours)
 }
 
@@ -127,7 +175,8 @@ func NewWorld(env Env) *World {
 		grand:       rand.New(rand.NewSource(1)),
 		probes:      map[string]int64{},
 	}
-	w.mainTask = &Task{idx: -1, fuel: DefaultFuel, goid: goid()}
+	w.mainGoid = goid()
+	w.mainTask = &Task{idx: -1, fuel: DefaultFuel, goid: w.mainGoid}
 	w.cur = w.mainTask
 	if p := os.Getenv("DST_INSTR_REPORT"); p != "" {
 		if b, err := os.ReadFile(p); err == nil {
@@ -150,6 +199,7 @@ func NewWorld(env Env) *World {
 // simulator control.
 func (w *World) Activate() {
 	simrt.StepHook = w.step
+	simrt.LockHook = w.stepLock
 	simrt.MapOrderHook = w.mapOrder
 	simrt.NowHook = func() time.Time { return w.clock }
 	simrt.SleepHook = func(d time.Duration) { w.clock = w.clock.Add(d) }
@@ -166,6 +216,7 @@ func (w *World) Activate() {
 
 func (w *World) Deactivate() {
 	simrt.StepHook = nil
+	simrt.LockHook = nil
 	simrt.MapOrderHook = nil
 	simrt.NowHook = nil
 	simrt.SleepHook = nil
@@ -220,6 +271,18 @@ func (w *World) step(site int) {
 			<-t.resume
 		}
 	}
+}
+
+// stepLock: a step right before a lock acquisition; under a seeded strategy with LockP > 0 the
+// running task's quantum ends here with that probability (the recorded schedule stays a plain
+// list of (task, steps) segments, so a replay switches at the very same step).
+func (w *World) stepLock(site int) {
+	if w.schedOn && w.lockP > 0 && w.lockRand != nil && !simrt.NoPreempt() {
+		if w.lockRand.Float64() < w.lockP {
+			w.cur.quantum = 0
+		}
+	}
+	w.step(site)
 }
 
 func (w *World) yieldSpin() {
@@ -292,6 +355,7 @@ type SchedSpec struct {
 	Seed     uint64     `json:"seed,omitempty"`
 	K        int        `json:"k,omitempty"` // random: mean quantum; rr: quantum; pct: change points
 	Segments [][2]int64 `json:"segments,omitempty"`
+	LockP    float64    `json:"lockP,omitempty"` // probability of ending the quantum right before a lock acquisition
 }
 
 const schedWatchdog = 120 * time.Second
@@ -315,6 +379,10 @@ func (w *World) RunConcurrent(fns []func(t *Task), spec SchedSpec, estTicks []in
 	}
 	var segs [][2]int64
 	strat := newStrategy(spec, n, estTicks)
+	w.lockP, w.lockRand = 0, nil
+	if spec.Strategy != "explicit" && spec.LockP > 0 {
+		w.lockP, w.lockRand = spec.LockP, NewRand(Mix(spec.Seed, "locks"))
+	}
 	w.schedOn = true
 	saved := w.cur
 	var last *Task
@@ -344,11 +412,27 @@ func (w *World) RunConcurrent(fns []func(t *Task), spec SchedSpec, estTicks []in
 		t.segTicks = 0
 		w.cur = t
 		t.resume <- struct{}{}
-		select {
-		case <-w.yieldCh:
-		case <-time.After(schedWatchdog):
-			fmt.Fprintf(os.Stderr, "INFRASTRUCTURE: task %d blocked outside simulator control (last site %s)\n", t.idx, w.SiteName(t.lastSite))
-			os.Exit(2)
+		blocked := false
+		lastTicks, idle := int64(-1), time.Duration(0)
+	wait:
+		for {
+			select {
+			case <-w.yieldCh:
+				break wait
+			case <-time.After(250 * time.Millisecond):
+				if cur := t.ticks; cur != lastTicks {
+					lastTicks, idle = cur, 0
+				} else if idle += 250 * time.Millisecond; idle >= blockWatch {
+					// the task waits for something no simulated task will ever provide
+					blocked = true
+					break wait
+				}
+			}
+		}
+		if blocked {
+			t.done = true
+			t.blocked = true
+			w.tainted = true
 		}
 		w.totalSwitches++
 		if len(segs) > 0 && segs[len(segs)-1][0] == int64(ti) {
